@@ -88,6 +88,10 @@ func customOps(l *Log) map[string]eval.Operator {
 		}
 	}
 	return map[string]eval.Operator{
+		"one": func(_ *eval.Ctx, ps []eval.Value) (eval.Value, error) {
+			logCall("one", ps, int64(1), nil)
+			return int64(1), nil
+		},
 		"f": ident("f"),
 		"p": ident("p"),
 		"g": func(_ *eval.Ctx, ps []eval.Value) (eval.Value, error) {
